@@ -82,7 +82,7 @@ func TestC13(t *testing.T) {
 
 // ---- C07 (merge tier) --------------------------------------------------------
 
-var c07Cfg = SGenCfg{RFs: []int{2, 3, 3}, MinOps: 3, MaxOps: 14, FaultPct: 25, Blocks: 16,
+var c07Cfg = SGenCfg{RFs: []int{2, 3, 3}, MinOps: 3, MaxOps: 14, FaultPct: 25, Blocks: 16, FillPct: 70,
 	W: map[string]int{"write": 40, "snapshot": 10, "rebuildnew": 22, "remove": 8, "nodedrop": 4, "read": 6, "sync": 2}}
 
 func TestC07(t *testing.T) {
